@@ -122,6 +122,15 @@ theorem real_free : Code.real.freeAfterSink = true := rfl
 def StepOK (orc : Orc) (h : H) (ps : PS) (op : Op) : Prop :=
   Inv (step Code.real orc h op) ∧ Rel (step Code.real orc h op) (pstep ps op)
 
+/-- the CheckedEntry part of `Inv` -/
+def CEOK (e : CEHeap) : Prop := (e.pool ++ e.inHook).Nodup ∧ ∀ x ∈ e.pool ++ e.inHook, x < e.next
+
+/-- what the running hooks will read -/
+def ceView (e : CEHeap) : List (Nat × Option Nat) := e.inHook.map fun id => ((e.mem id).ent, (e.mem id).after)
+
+theorem ce_congr {e e' : CEHeap} (he : e' = e) (hi : CEOK e) : CEOK e' := he ▸ hi
+theorem view_congr {e e' : CEHeap} {v : List (Nat × Option Nat)} (he : e' = e) (hv : ceView e = v) : ceView e' = v := he ▸ hv
+
 theorem map_frame {h h' : H} {l : List Nat} (hf : ∀ i ∈ l, h'.mem i = h.mem i) : l.map h'.mem = l.map h.mem :=
   List.map_congr_left hf
 
@@ -138,7 +147,7 @@ theorem step_encJson (orc : Orc) (h : H) (ps : PS) (p : Parent) (j : Job) (hi : 
   simp only [hb, Option.getD_some]
   generalize putJson Code.real sF.h sF.o = h8 at *
   constructor
-  · refine ⟨?_, by rw [s1]; exact hi.slice, by rw [s5]; exact hi.stack, fun _ _ => trivial, fun _ _ => trivial,
+  · refine ⟨?_, by rw [s1]; exact hi.slice, by rw [s5]; exact hi.stack, ce_congr s2 hi.ce, fun _ _ => trivial,
       fun _ _ => trivial, ?_, f8.trans nf⟩
     · intro o ho; simp only [jp8, List.mem_cons] at ho
       rcases ho with rfl | ho
@@ -146,10 +155,10 @@ theorem step_encJson (orc : Orc) (h : H) (ps : PS) (p : Parent) (j : Job) (hi : 
       · exact js o ho
     · simp only [s6, s7]
       exact owns_congr rfl rfl o8
-  · obtain ⟨r1, r2, r3⟩ := hr
+  · obtain ⟨r1, r2, r3, r4⟩ := hr
     have frI : ∀ i ∈ h.inflight, h8.mem i = h.mem i := fun i hi' => by rw [mem8]; exact fr i (by simp [hi'])
     have frL : ∀ i ∈ h.live, h8.mem i = h.mem i := fun i hi' => by rw [mem8]; exact fr i (by simp [hi'])
-    refine ⟨?_, ?_, by simp only [s8]; exact r3⟩
+    refine ⟨?_, ?_, by simp only [s8]; exact r3, view_congr s2 r4⟩
     · show List.map h8.mem (b :: h8.inflight) = _
       rw [s6, List.map_cons, map_frame frI, r1, mem8, mb]
     · show List.map h8.mem h8.live = _
@@ -166,9 +175,9 @@ theorem step_withClone (orc : Orc) (h : H) (ps : PS) (p : Parent) (fields : List
   simp only [step, pstep]
   generalize cloneBody orc (cfgCheck (clone Code.real orc h p) p) p fields = sF at *
   simp only [hb, Option.getD_some]
-  obtain ⟨r1, r2, r3⟩ := hr
+  obtain ⟨r1, r2, r3, r4⟩ := hr
   constructor
-  · refine ⟨js, by rw [s1]; exact hi.slice, by rw [s5]; exact hi.stack, fun _ _ => trivial, fun _ _ => trivial,
+  · refine ⟨js, by rw [s1]; exact hi.slice, by rw [s5]; exact hi.stack, ce_congr s2 hi.ce, fun _ _ => trivial,
       fun _ _ => trivial, ?_, nf⟩
     have o8 : Owns sF.h (b :: (h.inflight ++ h.live)) := owns_drop o7
     refine owns_perm (owns_congr rfl rfl o8) ?_ ?_
@@ -178,7 +187,7 @@ theorem step_withClone (orc : Orc) (h : H) (ps : PS) (p : Parent) (fields : List
       grind
   · have frI : ∀ i ∈ h.inflight, sF.h.mem i = h.mem i := fun i hi' => fr i (by simp [hi'])
     have frL : ∀ i ∈ h.live, sF.h.mem i = h.mem i := fun i hi' => fr i (by simp [hi'])
-    refine ⟨?_, ?_, ?_⟩
+    refine ⟨?_, ?_, ?_, view_congr s2 r4⟩
     · show List.map sF.h.mem sF.h.inflight = _
       rw [s6, map_frame frI, r1]
     · show List.map sF.h.mem (b :: sF.h.live) = _
@@ -188,69 +197,230 @@ theorem step_withClone (orc : Orc) (h : H) (ps : PS) (p : Parent) (fields : List
 
 theorem step_deliver (orc : Orc) (h : H) (ps : PS) (i : Nat) (hi : Inv h) (hr : Rel h ps) :
     StepOK orc h ps (.deliver i) := by
-  obtain ⟨r1, r2, r3⟩ := hr
+  obtain ⟨r1, r2, r3, r4⟩ := hr
   unfold StepOK
   simp only [step, pstep, real_free, if_true]
   have hmap : ps.inflight[i]? = (h.inflight[i]?).map h.mem := by rw [← r1]; simp
   cases hb : h.inflight[i]? with
-  | none => simp only [hmap, hb, Option.map_none]; exact ⟨hi, r1, r2, r3⟩
+  | none => simp only [hmap, hb, Option.map_none]; exact ⟨hi, r1, r2, r3, r4⟩
   | some b =>
     simp only [hmap, hb, Option.map_some]
     obtain ⟨l1, l2, e1, e2⟩ := split_at h.inflight i b hb
     constructor
-    · refine ⟨hi.json, hi.slice, hi.stack, fun _ _ => trivial, fun _ _ => trivial, fun _ _ => trivial, ?_, hi.nofault⟩
+    · refine ⟨hi.json, hi.slice, hi.stack, hi.ce, fun _ _ => trivial, fun _ _ => trivial, ?_, hi.nofault⟩
       have o := hi.owns
       rw [e1] at o
       have := owns_bufFree h b l1 (l2 ++ h.live) (by simpa using o)
       simp only [bufFree, e2]
       simpa [Owns, bufFree] using this
-    · refine ⟨?_, r2, by simp [bufFree, r3]⟩
+    · refine ⟨?_, r2, by simp [bufFree, r3], r4⟩
       show List.map h.mem (h.inflight.eraseIdx i) = ps.inflight.eraseIdx i
       rw [← r1, map_eraseIdx']
 
 theorem step_peek (orc : Orc) (h : H) (ps : PS) (i : Nat) (hi : Inv h) (hr : Rel h ps) :
     StepOK orc h ps (.peek i) := by
-  obtain ⟨r1, r2, r3⟩ := hr
+  obtain ⟨r1, r2, r3, r4⟩ := hr
   unfold StepOK
   simp only [step, pstep]
   have hmap : ps.live[i]? = (h.live[i]?).map h.mem := by rw [← r2]; simp
   cases hb : h.live[i]? with
-  | none => simp only [hmap, hb, Option.map_none]; exact ⟨hi, r1, r2, r3⟩
+  | none => simp only [hmap, hb, Option.map_none]; exact ⟨hi, r1, r2, r3, r4⟩
   | some b =>
     simp only [hmap, hb, Option.map_some]
-    exact ⟨⟨hi.json, hi.slice, hi.stack, hi.ce, hi.errCore, hi.errZap, hi.owns, hi.nofault⟩, r1, r2, by simp [r3]⟩
+    exact ⟨⟨hi.json, hi.slice, hi.stack, hi.ce, hi.errCore, hi.errZap, hi.owns, hi.nofault⟩, r1, r2, by simp [r3], r4⟩
 
 
-theorem step_check (orc : Orc) (h : H) (ps : PS) (ent : Nat) (cores : List Nat) (after errOut : Option Nat) (write : Bool)
-    (hi : Inv h) (hr : Rel h ps) : StepOK orc h ps (.check ent cores after errOut write) := by
-  obtain ⟨r1, r2, r3⟩ := hr
-  unfold StepOK
-  simp only [step, pstep, checkWrite, ceGet, ceReset, Code.real]
+theorem updCE_same (m : Nat → CEObj) (i : Nat) (v : CEObj) : updCE m i v i = v := by simp [updCE]
+theorem updCE_other (m : Nat → CEObj) (i j : Nat) (v : CEObj) (h : j ≠ i) : updCE m i v j = m j := by simp [updCE, h]
+
+theorem cePick_spec (pick : Option Nat) (e : CEHeap) (hk : CEOK e) :
+    (cePick pick e).1 ∉ (cePick pick e).2.pool ∧ (cePick pick e).1 ∉ e.inHook ∧ (cePick pick e).1 < (cePick pick e).2.next ∧
+    (cePick pick e).2.inHook = e.inHook ∧ CEOK (cePick pick e).2 ∧
+    (∀ x, x ≠ (cePick pick e).1 → (cePick pick e).2.mem x = e.mem x) := by
+  obtain ⟨n1, n2⟩ := hk
+  have fresh : ∀ r : Nat × CEHeap, r = (e.next, { e with next := e.next + 1, mem := updCE e.mem e.next CEObj.fresh }) →
+      r.1 ∉ r.2.pool ∧ r.1 ∉ e.inHook ∧ r.1 < r.2.next ∧ r.2.inHook = e.inHook ∧ CEOK r.2 ∧
+      (∀ x, x ≠ r.1 → r.2.mem x = e.mem x) := by
+    intro r hr; subst hr
+    refine ⟨?_, ?_, by simp, rfl, ⟨n1, ?_⟩, fun x hx => updCE_other _ _ _ _ hx⟩
+    · intro hc; have := n2 _ (List.mem_append.mpr (Or.inl hc)); omega
+    · intro hc; have := n2 _ (List.mem_append.mpr (Or.inr hc)); omega
+    · intro x hx; have := n2 x hx; simp; omega
+  unfold cePick
+  cases pick with
+  | none => exact fresh _ rfl
+  | some i =>
+    cases hi : e.pool[i]? with
+    | none => simp only [hi]; simpa using fresh _ rfl
+    | some id =>
+      simp only [hi]
+      have hid : id ∈ e.pool := List.mem_of_getElem? hi
+      have np : e.pool.Nodup := (List.nodup_append.mp n1).1
+      refine ⟨by simp [np.mem_erase_iff], ?_, n2 _ (List.mem_append.mpr (Or.inl hid)), trivial, ⟨?_, ?_⟩, fun _ _ => trivial⟩
+      · intro hc; exact (List.nodup_append.mp n1).2.2 id hid id hc rfl
+      · exact List.Nodup.sublist ((List.erase_sublist).append (List.Sublist.refl _)) n1
+      · intro x hx
+        apply n2
+        simp only [List.mem_append] at *
+        rcases hx with hx | hx
+        · exact Or.inl ((List.erase_sublist).subset hx)
+        · exact Or.inr hx
+
+/-- `getCheckedEntry` hands out an entry that no running hook holds, with every field erased -/
+theorem ceTake_spec (pick : Option Nat) (e : CEHeap) (hk : CEOK e) :
+    (ceTake Code.real pick e).1 ∉ (ceTake Code.real pick e).2.pool ∧
+    (ceTake Code.real pick e).1 ∉ e.inHook ∧
+    (ceTake Code.real pick e).1 < (ceTake Code.real pick e).2.next ∧
+    (ceTake Code.real pick e).2.inHook = e.inHook ∧
+    CEOK (ceTake Code.real pick e).2 ∧
+    (∀ x, x ≠ (ceTake Code.real pick e).1 → (ceTake Code.real pick e).2.mem x = e.mem x) ∧
+    (ceTake Code.real pick e).2.mem (ceTake Code.real pick e).1 = ⟨0, none, false, none, []⟩ := by
+  obtain ⟨a1, a2, a3, a4, a5, a6⟩ := cePick_spec pick e hk
+  unfold ceTake ceResetAt
+  generalize cePick pick e = r at *
+  exact ⟨a1, a2, a3, a4, a5, fun x hx => by simp only []; rw [updCE_other _ _ _ _ hx]; exact a6 x hx,
+    by simp [updCE, ceReset, Code.real]⟩
+
+theorem view_frame {e e' : CEHeap} (hin : e'.inHook = e.inHook) (hm : ∀ x ∈ e.inHook, e'.mem x = e.mem x) :
+    ceView e' = ceView e := by
+  unfold ceView; rw [hin]
+  exact List.map_congr_left fun x hx => by rw [hm x hx]
+
+theorem ceCheck_spec (pick : Option Nat) (e : CEHeap) (ent : Nat) (cores : List Nat) (after errOut : Option Nat) (write : Bool)
+    (hk : CEOK e) :
+    CEOK (ceCheck Code.real pick e ent cores after errOut write).1 ∧
+    (ceCheck Code.real pick e ent cores after errOut write).2 =
+      (if write then some (Out.ce ent (cores.map some) after errOut false) else none) ∧
+    ceView (ceCheck Code.real pick e ent cores after errOut write).1 =
+      (match write, after with
+       | true, some a => (ent, some a) :: ceView e
+       | _, _ => ceView e) := by
+  obtain ⟨t1, t2, t3, t4, t5, t6, t7⟩ := ceTake_spec pick e hk
+  unfold ceCheck
+  simp only []
+  generalize ceTake Code.real pick e = g at *
+  have frame : ∀ v : CEObj, ∀ x ∈ e.inHook, updCE g.2.mem g.1 v x = e.mem x := by
+    intro v x hx
+    have hne : x ≠ g.1 := fun hc => t2 (hc ▸ hx)
+    rw [updCE_other _ _ _ _ hne]; exact t6 x hne
+  obtain ⟨n1, n2⟩ := t5
   cases write with
   | false =>
     simp only [Bool.false_eq_true, if_false]
-    exact ⟨⟨hi.json, hi.slice, hi.stack, fun _ _ => trivial, hi.errCore, hi.errZap, hi.owns, hi.nofault⟩, r1, r2, r3⟩
+    refine ⟨⟨n1, n2⟩, trivial, ?_⟩
+    cases after <;> exact view_frame t4 (frame _)
   | true =>
-    simp only [if_true]
-    refine ⟨⟨hi.json, hi.slice, hi.stack, fun _ _ => trivial, hi.errCore, hi.errZap, hi.owns, hi.nofault⟩, r1, r2, ?_⟩
-    cases after <;> cases errOut <;> simp [r3]
+    simp only [if_true, t7]
+    cases after with
+    | none =>
+      simp only []
+      refine ⟨⟨?_, ?_⟩, by cases errOut <;> simp, view_frame t4 (frame _)⟩
+      · simp only [List.cons_append, List.nodup_cons, List.mem_append]
+        rw [t4] at n1 ⊢
+        exact ⟨fun hc => hc.elim t1 t2, n1⟩
+      · intro x hx
+        simp only [List.cons_append, List.mem_cons] at hx
+        rcases hx with rfl | hx
+        · exact t3
+        · exact n2 x hx
+    | some a =>
+      simp only [Code.real, if_true]
+      refine ⟨⟨?_, ?_⟩, by cases errOut <;> simp, ?_⟩
+      · rw [t4] at n1 ⊢
+        simp only [List.nodup_append, List.nodup_cons, List.mem_cons] at n1 ⊢
+        refine ⟨n1.1, ⟨t2, n1.2.1⟩, ?_⟩
+        intro x hx y hy
+        rcases hy with rfl | hy
+        · intro hc; exact t1 (hc ▸ hx)
+        · exact n1.2.2 x hx y hy
+      · intro x hx
+        simp only [List.mem_append, List.mem_cons] at hx
+        rcases hx with hx | rfl | hx
+        · exact n2 x (List.mem_append.mpr (Or.inl hx))
+        · exact t3
+        · exact n2 x (List.mem_append.mpr (Or.inr hx))
+      · unfold ceView
+        simp only [List.map_cons, updCE_same, t4]
+        refine congrArg _ ?_
+        exact List.map_congr_left fun x hx => by rw [frame _ x hx]
+
+theorem ceHookReturn_spec (e : CEHeap) (i : Nat) (hk : CEOK e) :
+    CEOK (ceHookReturn Code.real e i).1 ∧
+    (ceHookReturn Code.real e i).2 = ((ceView e)[i]?).map (fun v => Out.hook v.1 v.2) ∧
+    ceView (ceHookReturn Code.real e i).1 = (ceView e).eraseIdx i := by
+  unfold ceHookReturn
+  have hv : (ceView e)[i]? = (e.inHook[i]?).map fun id => ((e.mem id).ent, (e.mem id).after) := by simp [ceView]
+  cases hb : e.inHook[i]? with
+  | none => simp only [hv, hb, Option.map_none]; refine ⟨hk, trivial, ?_⟩; rw [List.eraseIdx_of_length_le]; simp [ceView]; exact (List.getElem?_eq_none_iff.mp hb)
+  | some id =>
+    simp only [hv, hb, Option.map_some, Code.real, if_true]
+    obtain ⟨l1, l2, e1, e2⟩ := split_at e.inHook i id hb
+    obtain ⟨n1, n2⟩ := hk
+    refine ⟨⟨?_, ?_⟩, trivial, ?_⟩
+    · simp only [e2]
+      rw [e1] at n1
+      simp only [List.cons_append, List.nodup_append, List.nodup_cons, List.mem_cons, List.mem_append] at n1 ⊢
+      grind
+    · intro x hx
+      apply n2
+      simp only [e2, List.cons_append, List.mem_cons, List.mem_append] at hx
+      rw [e1]
+      simp only [List.mem_append, List.mem_cons]
+      grind
+    · simp only [ceView]; rw [map_eraseIdx']
+
+theorem step_check (orc : Orc) (h : H) (ps : PS) (ent : Nat) (cores : List Nat) (after errOut : Option Nat) (write : Bool)
+    (hi : Inv h) (hr : Rel h ps) : StepOK orc h ps (.check ent cores after errOut write) := by
+  obtain ⟨r1, r2, r3, r4⟩ := hr
+  obtain ⟨c1, c2, c3⟩ := ceCheck_spec (orc h.tick) h.ceh ent cores after errOut write hi.ce
+  unfold StepOK
+  simp only [step, pstep, checkWrite]
+  generalize ceCheck Code.real (orc h.tick) h.ceh ent cores after errOut write = r at *
+  refine ⟨⟨hi.json, hi.slice, hi.stack, c1, hi.errCore, hi.errZap, hi.owns, hi.nofault⟩, ?_⟩
+  have r4' : ceView h.ceh = ps.inHook := r4
+  cases write with
+  | false => exact ⟨r1, r2, by simp [c2, pushOut, r3], by show ceView r.1 = _; rw [c3]; cases after <;> exact r4'⟩
+  | true =>
+    cases after with
+    | none => exact ⟨r1, r2, by simp [c2, pushOut, r3], by show ceView r.1 = _; rw [c3]; exact r4'⟩
+    | some a => exact ⟨r1, r2, by simp [c2, pushOut, r3], by show ceView r.1 = _; rw [c3, r4']; simp⟩
+
+theorem step_hookReturn (orc : Orc) (h : H) (ps : PS) (i : Nat) (hi : Inv h) (hr : Rel h ps) :
+    StepOK orc h ps (.hookReturn i) := by
+  obtain ⟨r1, r2, r3, r4⟩ := hr
+  obtain ⟨c1, c2, c3⟩ := ceHookReturn_spec h.ceh i hi.ce
+  have r4' : ceView h.ceh = ps.inHook := r4
+  unfold StepOK
+  simp only [step, pstep, hookReturn]
+  generalize ceHookReturn Code.real h.ceh i = r at *
+  refine ⟨⟨hi.json, hi.slice, hi.stack, c1, hi.errCore, hi.errZap, hi.owns, hi.nofault⟩, ?_⟩
+  rw [r4'] at c2 c3
+  cases hv : ps.inHook[i]? with
+  | none =>
+    rw [hv] at c2
+    refine ⟨r1, r2, by simp [c2, pushOut, r3], ?_⟩
+    show ceView r.1 = _
+    rw [c3, List.eraseIdx_of_length_le (List.getElem?_eq_none_iff.mp hv)]
+  | some v =>
+    rw [hv] at c2
+    exact ⟨r1, r2, by simp [c2, pushOut, r3], by show ceView r.1 = _; rw [c3]⟩
 
 theorem step_errElem (orc : Orc) (h : H) (ps : PS) (z : Bool) (e : Nat) (hi : Inv h) (hr : Rel h ps) :
     StepOK orc h ps (.errElem z e) := by
-  obtain ⟨r1, r2, r3⟩ := hr
+  obtain ⟨r1, r2, r3, r4⟩ := hr
   unfold StepOK
   simp only [step, pstep, errElem]
   cases z with
   | false =>
     simp only [Bool.false_eq_true, if_false]
-    exact ⟨⟨hi.json, hi.slice, hi.stack, hi.ce, fun _ _ => trivial, hi.errZap, hi.owns, hi.nofault⟩, r1, r2, by simp [r3]⟩
+    exact ⟨⟨hi.json, hi.slice, hi.stack, hi.ce, fun _ _ => trivial, hi.errZap, hi.owns, hi.nofault⟩, r1, r2, by simp [r3], r4⟩
   | true =>
     simp only [if_true]
-    exact ⟨⟨hi.json, hi.slice, hi.stack, hi.ce, hi.errCore, fun _ _ => trivial, hi.owns, hi.nofault⟩, r1, r2, by simp [r3]⟩
+    exact ⟨⟨hi.json, hi.slice, hi.stack, hi.ce, hi.errCore, fun _ _ => trivial, hi.owns, hi.nofault⟩, r1, r2, by simp [r3], r4⟩
 
 theorem step_capture (orc : Orc) (h : H) (ps : PS) (avail : List Nat) (full : Bool) (hi : Inv h) (hr : Rel h ps) :
     StepOK orc h ps (.capture avail full) := by
-  obtain ⟨r1, r2, r3⟩ := hr
+  obtain ⟨r1, r2, r3, r4⟩ := hr
   have hg := takeAt_fst StackObj.fresh h.stackPool (orc h.tick)
   have hg2 := takeAt_snd StackObj.fresh h.stackPool (orc h.tick)
   have hinv : (takeAt StackObj.fresh h.stackPool (orc h.tick)).1.PutInv := by
@@ -262,7 +432,7 @@ theorem step_capture (orc : Orc) (h : H) (ps : PS) (avail : List Nat) (full : Bo
   simp only [step, pstep, capture]
   generalize takeAt StackObj.fresh h.stackPool (orc h.tick) = g at *
   generalize captureFrom g.1 avail full = r at *
-  refine ⟨⟨hi.json, hi.slice, ?_, hi.ce, hi.errCore, hi.errZap, hi.owns, by simp [hi.nofault, c1]⟩, r1, r2, by simp [c2, r3]⟩
+  refine ⟨⟨hi.json, hi.slice, ?_, hi.ce, hi.errCore, hi.errZap, hi.owns, by simp [hi.nofault, c1]⟩, r1, r2, by simp [c2, r3], r4⟩
   intro st hst
   simp only [List.mem_cons] at hst
   rcases hst with rfl | hst
@@ -271,7 +441,7 @@ theorem step_capture (orc : Orc) (h : H) (ps : PS) (avail : List Nat) (full : Bo
 
 theorem step_scratch (orc : Orc) (h : H) (ps : PS) (s : Bytes) (hi : Inv h) (hr : Rel h ps) :
     StepOK orc h ps (.scratch s) := by
-  obtain ⟨r1, r2, r3⟩ := hr
+  obtain ⟨r1, r2, r3, r4⟩ := hr
   obtain ⟨o1, fr, em, rest, fl⟩ := owns_bufGet orc h (h.inflight ++ h.live) hi.owns
   obtain ⟨j0, s1, s2, s3, s4, s5, s6, s7, s8⟩ := rest
   unfold StepOK
@@ -288,12 +458,12 @@ theorem step_scratch (orc : Orc) (h : H) (ps : PS) (s : Bytes) (hi : Inv h) (hr 
     rw [upd_other _ _ _ _ this]; exact fr i hi'
   constructor
   · refine ⟨by simp only [bufFree]; rw [j0]; exact hi.json, by simp only [bufFree]; rw [s1]; exact hi.slice,
-      by simp only [bufFree]; rw [s5]; exact hi.stack, fun _ _ => trivial, fun _ _ => trivial, fun _ _ => trivial, ?_,
+      by simp only [bufFree]; rw [s5]; exact hi.stack, ce_congr s2 hi.ce, fun _ _ => trivial, fun _ _ => trivial, ?_,
       by simp only [bufFree]; exact fl.trans hi.nofault⟩
     have := owns_bufFree h1 b [] (h.inflight ++ h.live) (by simpa using o1)
     simp only [bufFree, s6, s7]
     simpa [Owns, bufFree] using this
-  · refine ⟨?_, ?_, ?_⟩
+  · refine ⟨?_, ?_, ?_, view_congr s2 r4⟩
     · simp only [bufFree, s6]
       rw [← r1]; exact List.map_congr_left fun i hi' => frame i (by simp [hi'])
     · simp only [bufFree, s7]
@@ -305,8 +475,16 @@ theorem step_gc (orc : Orc) (h : H) (ps : PS) (k : Nat → Bool) (hi : Inv h) (h
   unfold StepOK
   simp only [step, pstep]
   refine ⟨⟨fun o ho => hi.json o ((keepIdx_sublist k 0 _).subset ho), fun o ho => hi.slice o ((keepIdx_sublist k 0 _).subset ho),
-    fun o ho => hi.stack o ((keepIdx_sublist k 0 _).subset ho), fun _ _ => trivial, fun _ _ => trivial, fun _ _ => trivial,
-    owns_sub (keepIdx_sublist k 0 _) rfl hi.owns, hi.nofault⟩, hr⟩
+    fun o ho => hi.stack o ((keepIdx_sublist k 0 _).subset ho), ?_, fun _ _ => trivial, fun _ _ => trivial,
+    owns_sub (keepIdx_sublist k 0 _) rfl hi.owns, hi.nofault⟩, hr.1, hr.2.1, hr.2.2.1, hr.2.2.2⟩
+  obtain ⟨n1, n2⟩ := hi.ce
+  refine ⟨List.Nodup.sublist ((keepIdx_sublist k 0 _).append (List.Sublist.refl _)) n1, ?_⟩
+  intro x hx
+  apply n2
+  simp only [List.mem_append] at *
+  rcases hx with hx | hx
+  · exact Or.inl ((keepIdx_sublist k 0 _).subset hx)
+  · exact Or.inr hx
 
 
 /-! ### console encoder -/
@@ -324,7 +502,7 @@ theorem consoleHead_spec (orc : Orc) (h : H) (j : CJob) (owned : List Nat) (ho :
     (∀ i ∈ owned, (consoleHead Code.real orc h j).2.mem i = h.mem i) ∧
     (consoleHead Code.real orc h j).2.jsonPool = h.jsonPool ∧
     (∀ a ∈ (consoleHead Code.real orc h j).2.slicePool, a.PutInv) ∧
-    (consoleHead Code.real orc h j).2.cePool = h.cePool ∧
+    (consoleHead Code.real orc h j).2.ceh = h.ceh ∧
     (consoleHead Code.real orc h j).2.errPoolCore = h.errPoolCore ∧
     (consoleHead Code.real orc h j).2.errPoolZap = h.errPoolZap ∧
     (consoleHead Code.real orc h j).2.stackPool = h.stackPool ∧
@@ -498,14 +676,14 @@ theorem step_encConsole (orc : Orc) (h : H) (ps : PS) (p : Parent) (j : CJob) (h
     rw [c1, b2, a2, pureConsole_eq]
   unfold StepOK
   simp only [step, encodeConsole, real_free, if_true, pstep, hline, hh3, hh5, hhF]
-  obtain ⟨r1, r2, r3⟩ := hr
+  obtain ⟨r1, r2, r3, r4⟩ := hr
   constructor
-  · refine ⟨by rw [c5]; exact b4, by rw [s1]; exact a5, by rw [s5, a9]; exact hi.stack, fun _ _ => trivial,
+  · refine ⟨by rw [c5]; exact b4, by rw [s1]; exact a5, by rw [s5, a9]; exact hi.stack, ce_congr (s2.trans a6) hi.ce,
       fun _ _ => trivial, fun _ _ => trivial, ?_, by rw [c7]; exact b6⟩
     have : Owns hF (line :: (h.inflight ++ h.live)) := owns_congr c3 c4 b1
     simp only [s6, s7, a10, a11]
     exact owns_congr rfl rfl this
-  · refine ⟨?_, ?_, by show hF.out = _; rw [s8, a12, r3]⟩
+  · refine ⟨?_, ?_, by show hF.out = _; rw [s8, a12, r3], view_congr (s2.trans a6) r4⟩
     · show List.map hF.mem (line :: hF.inflight) = _
       rw [s6, a10, List.map_cons, hline', map_frame (fun i hi' => frame i (by simp [hi'])), r1]
     · show List.map hF.mem hF.live = _
@@ -523,13 +701,13 @@ theorem step_ctxPanic (orc : Orc) (h : H) (ps : PS) (p : Parent) (j : CJob) (hi 
   simp only [step, pstep, hh3]
   generalize consoleCtxPanic Code.real orc h3 p j.fields = h5 at *
   obtain ⟨s1, s2, s3, s4, s5, s6, s7, s8⟩ := b5
-  obtain ⟨r1, r2, r3⟩ := hr
+  obtain ⟨r1, r2, r3, r4⟩ := hr
   constructor
-  · refine ⟨b4, by rw [s1]; exact a5, by rw [s5, a9]; exact hi.stack, fun _ _ => trivial, fun _ _ => trivial,
+  · refine ⟨b4, by rw [s1]; exact a5, by rw [s5, a9]; exact hi.stack, ce_congr (s2.trans a6) hi.ce, fun _ _ => trivial,
       fun _ _ => trivial, ?_, b6⟩
     simp only [s6, s7, a10, a11]
     exact b1
-  · refine ⟨?_, ?_, by rw [s8, a12, r3]⟩
+  · refine ⟨?_, ?_, by rw [s8, a12, r3], view_congr (s2.trans a6) r4⟩
     · rw [s6, a10, map_frame (fun i hi' => (b3 i (by simp [hi'])).trans (a3 i (by simp [hi']))), r1]
     · rw [s7, a11, map_frame (fun i hi' => (b3 i (by simp [hi'])).trans (a3 i (by simp [hi']))), r2]
 
@@ -541,6 +719,7 @@ theorem step_ok (orc : Orc) (h : H) (ps : PS) (op : Op) (hi : Inv h) (hr : Rel h
   | withClone p f => exact step_withClone orc h ps p f hi hr
   | peek i => exact step_peek orc h ps i hi hr
   | check e c a eo w => exact step_check orc h ps e c a eo w hi hr
+  | hookReturn i => exact step_hookReturn orc h ps i hi hr
   | errElem z e => exact step_errElem orc h ps z e hi hr
   | capture a f => exact step_capture orc h ps a f hi hr
   | scratch s => exact step_scratch orc h ps s hi hr
@@ -558,82 +737,187 @@ theorem inv_empty : Inv H.empty :=
   ⟨by simp [H.empty], by simp [H.empty], by simp [H.empty], by simp [H.empty], by simp [H.empty], by simp [H.empty],
    by simp [H.empty, Owns], rfl⟩
 
-theorem rel_empty : Rel H.empty PS.empty := ⟨rfl, rfl, rfl⟩
+/-- the pool-free state a heap stands for -/
+def psOf (h : H) : PS := ⟨h.inflight.map h.mem, h.live.map h.mem, ceView h.ceh, h.out⟩
+
+theorem rel_self (h : H) : Rel h (psOf h) := ⟨rfl, rfl, rfl, rfl⟩
+
+theorem rel_empty : Rel H.empty PS.empty := ⟨rfl, rfl, rfl, rfl⟩
 
 
 /-! ### a Write in flight while other operations run -/
 
-theorem prun_nested : ∀ (mid : List Op) (d : Nat) (pre : List Bytes) (x : Bytes) (rest : List Bytes) (l : List Bytes) (o : List Out),
+theorem prun_nested : ∀ (mid : List Op) (d : Nat) (pre : List Bytes) (x : Bytes) (rest : List Bytes) (l : List Bytes)
+    (k : List (Nat × Option Nat)) (o : List Out),
     pre.length = d → nested d mid = true →
-    ∃ l' o', prun ⟨pre ++ x :: rest, l, o⟩ mid = ⟨x :: rest, l', o'⟩
-  | [], d, pre, x, rest, l, o, hd, hn => by
+    ∃ l' k' o', prun ⟨pre ++ x :: rest, l, k, o⟩ mid = ⟨x :: rest, l', k', o'⟩
+  | [], d, pre, x, rest, l, k, o, hd, hn => by
     simp only [nested, beq_iff_eq] at hn
     subst hn
     have : pre = [] := List.length_eq_zero_iff.mp hd
     subst this
-    exact ⟨l, o, rfl⟩
-  | .encJson p j :: r, d, pre, x, rest, l, o, hd, hn => by
+    exact ⟨l, k, o, rfl⟩
+  | .encJson p j :: r, d, pre, x, rest, l, k, o, hd, hn => by
     simp only [nested] at hn
-    obtain ⟨l', o', e⟩ := prun_nested r (d + 1) (pureJson p j :: pre) x rest l o (by simp [hd]) hn
-    exact ⟨l', o', by simpa [prun, pstep] using e⟩
-  | .encConsole p j :: r, d, pre, x, rest, l, o, hd, hn => by
+    obtain ⟨l', k', o', e⟩ := prun_nested r (d + 1) (pureJson p j :: pre) x rest l k o (by simp [hd]) hn
+    exact ⟨l', k', o', by simpa [prun, pstep] using e⟩
+  | .encConsole p j :: r, d, pre, x, rest, l, k, o, hd, hn => by
     simp only [nested] at hn
-    obtain ⟨l', o', e⟩ := prun_nested r (d + 1) (pureConsole p j :: pre) x rest l o (by simp [hd]) hn
-    exact ⟨l', o', by simpa [prun, pstep] using e⟩
-  | .deliver i :: r, d, pre, x, rest, l, o, hd, hn => by
+    obtain ⟨l', k', o', e⟩ := prun_nested r (d + 1) (pureConsole p j :: pre) x rest l k o (by simp [hd]) hn
+    exact ⟨l', k', o', by simpa [prun, pstep] using e⟩
+  | .deliver i :: r, d, pre, x, rest, l, k, o, hd, hn => by
     simp only [nested, Bool.and_eq_true, decide_eq_true_eq] at hn
     obtain ⟨hi, hn⟩ := hn
     have hlt : i < pre.length := by omega
     have hget : (pre ++ x :: rest)[i]? = some pre[i] := by
       rw [List.getElem?_append_left hlt]; simp
-    obtain ⟨l', o', e⟩ := prun_nested r (d - 1) (pre.eraseIdx i) x rest l (Out.line pre[i] :: o)
+    obtain ⟨l', k', o', e⟩ := prun_nested r (d - 1) (pre.eraseIdx i) x rest l k (Out.line pre[i] :: o)
       (by rw [List.length_eraseIdx]; simp [hlt]; omega) hn
-    refine ⟨l', o', ?_⟩
+    refine ⟨l', k', o', ?_⟩
     simp only [prun, List.foldl_cons, pstep, hget]
     rw [List.eraseIdx_append_of_lt_length hlt]
     exact e
-  | .withClone p f :: r, d, pre, x, rest, l, o, hd, hn => by
+  | .withClone p f :: r, d, pre, x, rest, l, k, o, hd, hn => by
     simp only [nested] at hn
-    obtain ⟨l', o', e⟩ := prun_nested r d pre x rest _ _ hd hn
-    exact ⟨l', o', by simpa [prun, pstep] using e⟩
-  | .peek i :: r, d, pre, x, rest, l, o, hd, hn => by
+    obtain ⟨l', k', o', e⟩ := prun_nested r d pre x rest _ k _ hd hn
+    exact ⟨l', k', o', by simpa [prun, pstep] using e⟩
+  | .peek i :: r, d, pre, x, rest, l, k, o, hd, hn => by
     simp only [nested] at hn
     cases hl : l[i]? with
     | none =>
-      obtain ⟨l', o', e⟩ := prun_nested r d pre x rest l o hd hn
-      exact ⟨l', o', by simpa [prun, pstep, hl] using e⟩
+      obtain ⟨l', k', o', e⟩ := prun_nested r d pre x rest l k o hd hn
+      exact ⟨l', k', o', by simpa [prun, pstep, hl] using e⟩
     | some v =>
-      obtain ⟨l', o', e⟩ := prun_nested r d pre x rest l (Out.line v :: o) hd hn
-      exact ⟨l', o', by simpa [prun, pstep, hl] using e⟩
-  | .check en c a eo w :: r, d, pre, x, rest, l, o, hd, hn => by
+      obtain ⟨l', k', o', e⟩ := prun_nested r d pre x rest l k (Out.line v :: o) hd hn
+      exact ⟨l', k', o', by simpa [prun, pstep, hl] using e⟩
+  | .check en c a eo w :: r, d, pre, x, rest, l, k, o, hd, hn => by
     simp only [nested] at hn
     cases w with
     | false =>
-      obtain ⟨l', o', e⟩ := prun_nested r d pre x rest l o hd hn
-      exact ⟨l', o', by simpa [prun, pstep] using e⟩
+      obtain ⟨l', k', o', e⟩ := prun_nested r d pre x rest l k o hd hn
+      exact ⟨l', k', o', by simpa [prun, pstep] using e⟩
     | true =>
-      obtain ⟨l', o', e⟩ := prun_nested r d pre x rest l _ hd hn
-      exact ⟨l', o', by simpa [prun, pstep] using e⟩
-  | .errElem z en :: r, d, pre, x, rest, l, o, hd, hn => by
+      cases a with
+      | none =>
+        obtain ⟨l', k', o', e⟩ := prun_nested r d pre x rest l k _ hd hn
+        exact ⟨l', k', o', by simpa [prun, pstep] using e⟩
+      | some a =>
+        obtain ⟨l', k', o', e⟩ := prun_nested r d pre x rest l ((en, some a) :: k) _ hd hn
+        exact ⟨l', k', o', by simpa [prun, pstep] using e⟩
+  | .hookReturn i :: r, d, pre, x, rest, l, k, o, hd, hn => by
     simp only [nested] at hn
-    obtain ⟨l', o', e⟩ := prun_nested r d pre x rest l _ hd hn
-    exact ⟨l', o', by simpa [prun, pstep] using e⟩
-  | .capture a f :: r, d, pre, x, rest, l, o, hd, hn => by
+    cases hk : k[i]? with
+    | none =>
+      obtain ⟨l', k', o', e⟩ := prun_nested r d pre x rest l k o hd hn
+      exact ⟨l', k', o', by simpa [prun, pstep, hk] using e⟩
+    | some v =>
+      obtain ⟨l', k', o', e⟩ := prun_nested r d pre x rest l (k.eraseIdx i) (Out.hook v.1 v.2 :: o) hd hn
+      exact ⟨l', k', o', by simpa [prun, pstep, hk] using e⟩
+  | .errElem z en :: r, d, pre, x, rest, l, k, o, hd, hn => by
     simp only [nested] at hn
-    obtain ⟨l', o', e⟩ := prun_nested r d pre x rest l _ hd hn
-    exact ⟨l', o', by simpa [prun, pstep] using e⟩
-  | .scratch b :: r, d, pre, x, rest, l, o, hd, hn => by
+    obtain ⟨l', k', o', e⟩ := prun_nested r d pre x rest l k _ hd hn
+    exact ⟨l', k', o', by simpa [prun, pstep] using e⟩
+  | .capture a f :: r, d, pre, x, rest, l, k, o, hd, hn => by
     simp only [nested] at hn
-    obtain ⟨l', o', e⟩ := prun_nested r d pre x rest l _ hd hn
-    exact ⟨l', o', by simpa [prun, pstep] using e⟩
-  | .ctxPanic p j :: r, d, pre, x, rest, l, o, hd, hn => by
+    obtain ⟨l', k', o', e⟩ := prun_nested r d pre x rest l k _ hd hn
+    exact ⟨l', k', o', by simpa [prun, pstep] using e⟩
+  | .scratch b :: r, d, pre, x, rest, l, k, o, hd, hn => by
     simp only [nested] at hn
-    obtain ⟨l', o', e⟩ := prun_nested r d pre x rest l o hd hn
-    exact ⟨l', o', by simpa [prun, pstep] using e⟩
-  | .gc k :: r, d, pre, x, rest, l, o, hd, hn => by
+    obtain ⟨l', k', o', e⟩ := prun_nested r d pre x rest l k _ hd hn
+    exact ⟨l', k', o', by simpa [prun, pstep] using e⟩
+  | .ctxPanic p j :: r, d, pre, x, rest, l, k, o, hd, hn => by
     simp only [nested] at hn
-    obtain ⟨l', o', e⟩ := prun_nested r d pre x rest l o hd hn
-    exact ⟨l', o', by simpa [prun, pstep] using e⟩
+    obtain ⟨l', k', o', e⟩ := prun_nested r d pre x rest l k o hd hn
+    exact ⟨l', k', o', by simpa [prun, pstep] using e⟩
+  | .gc g :: r, d, pre, x, rest, l, k, o, hd, hn => by
+    simp only [nested] at hn
+    obtain ⟨l', k', o', e⟩ := prun_nested r d pre x rest l k o hd hn
+    exact ⟨l', k', o', by simpa [prun, pstep] using e⟩
+
+theorem prun_hnested : ∀ (mid : List Op) (d : Nat) (pre : List (Nat × Option Nat)) (v : Nat × Option Nat)
+    (rest : List (Nat × Option Nat)) (f l : List Bytes) (o : List Out),
+    pre.length = d → hnested d mid = true →
+    ∃ f' l' o', prun ⟨f, l, pre ++ v :: rest, o⟩ mid = ⟨f', l', v :: rest, o'⟩
+  | [], d, pre, v, rest, f, l, o, hd, hn => by
+    simp only [hnested, beq_iff_eq] at hn
+    subst hn
+    have : pre = [] := List.length_eq_zero_iff.mp hd
+    subst this
+    exact ⟨f, l, o, rfl⟩
+  | .check en c (some a) eo true :: r, d, pre, v, rest, f, l, o, hd, hn => by
+    simp only [hnested] at hn
+    obtain ⟨f', l', o', e⟩ := prun_hnested r (d + 1) ((en, some a) :: pre) v rest f l _ (by simp [hd]) hn
+    exact ⟨f', l', o', by simpa [prun, pstep] using e⟩
+  | .check en c none eo true :: r, d, pre, v, rest, f, l, o, hd, hn => by
+    simp only [hnested] at hn
+    obtain ⟨f', l', o', e⟩ := prun_hnested r d pre v rest f l _ hd hn
+    exact ⟨f', l', o', by simpa [prun, pstep] using e⟩
+  | .check en c a eo false :: r, d, pre, v, rest, f, l, o, hd, hn => by
+    have hn' : hnested d r = true := by cases a <;> simpa [hnested] using hn
+    obtain ⟨f', l', o', e⟩ := prun_hnested r d pre v rest f l o hd hn'
+    exact ⟨f', l', o', by simpa [prun, pstep] using e⟩
+  | .hookReturn i :: r, d, pre, v, rest, f, l, o, hd, hn => by
+    simp only [hnested, Bool.and_eq_true, decide_eq_true_eq] at hn
+    obtain ⟨hi, hn⟩ := hn
+    have hlt : i < pre.length := by omega
+    have hget : (pre ++ v :: rest)[i]? = some pre[i] := by
+      rw [List.getElem?_append_left hlt]; simp
+    obtain ⟨f', l', o', e⟩ := prun_hnested r (d - 1) (pre.eraseIdx i) v rest f l (Out.hook pre[i].1 pre[i].2 :: o)
+      (by rw [List.length_eraseIdx]; simp [hlt]; omega) hn
+    refine ⟨f', l', o', ?_⟩
+    simp only [prun, List.foldl_cons, pstep, hget]
+    rw [List.eraseIdx_append_of_lt_length hlt]
+    exact e
+  | .encJson p j :: r, d, pre, v, rest, f, l, o, hd, hn => by
+    simp only [hnested] at hn
+    obtain ⟨f', l', o', e⟩ := prun_hnested r d pre v rest _ l o hd hn
+    exact ⟨f', l', o', by simpa [prun, pstep] using e⟩
+  | .encConsole p j :: r, d, pre, v, rest, f, l, o, hd, hn => by
+    simp only [hnested] at hn
+    obtain ⟨f', l', o', e⟩ := prun_hnested r d pre v rest _ l o hd hn
+    exact ⟨f', l', o', by simpa [prun, pstep] using e⟩
+  | .deliver i :: r, d, pre, v, rest, f, l, o, hd, hn => by
+    simp only [hnested] at hn
+    cases hf : f[i]? with
+    | none =>
+      obtain ⟨f', l', o', e⟩ := prun_hnested r d pre v rest f l o hd hn
+      exact ⟨f', l', o', by simpa [prun, pstep, hf] using e⟩
+    | some b =>
+      obtain ⟨f', l', o', e⟩ := prun_hnested r d pre v rest (f.eraseIdx i) l (Out.line b :: o) hd hn
+      exact ⟨f', l', o', by simpa [prun, pstep, hf] using e⟩
+  | .withClone p fs :: r, d, pre, v, rest, f, l, o, hd, hn => by
+    simp only [hnested] at hn
+    obtain ⟨f', l', o', e⟩ := prun_hnested r d pre v rest f _ _ hd hn
+    exact ⟨f', l', o', by simpa [prun, pstep] using e⟩
+  | .peek i :: r, d, pre, v, rest, f, l, o, hd, hn => by
+    simp only [hnested] at hn
+    cases hl : l[i]? with
+    | none =>
+      obtain ⟨f', l', o', e⟩ := prun_hnested r d pre v rest f l o hd hn
+      exact ⟨f', l', o', by simpa [prun, pstep, hl] using e⟩
+    | some b =>
+      obtain ⟨f', l', o', e⟩ := prun_hnested r d pre v rest f l (Out.line b :: o) hd hn
+      exact ⟨f', l', o', by simpa [prun, pstep, hl] using e⟩
+  | .errElem z en :: r, d, pre, v, rest, f, l, o, hd, hn => by
+    simp only [hnested] at hn
+    obtain ⟨f', l', o', e⟩ := prun_hnested r d pre v rest f l _ hd hn
+    exact ⟨f', l', o', by simpa [prun, pstep] using e⟩
+  | .capture a fl :: r, d, pre, v, rest, f, l, o, hd, hn => by
+    simp only [hnested] at hn
+    obtain ⟨f', l', o', e⟩ := prun_hnested r d pre v rest f l _ hd hn
+    exact ⟨f', l', o', by simpa [prun, pstep] using e⟩
+  | .scratch b :: r, d, pre, v, rest, f, l, o, hd, hn => by
+    simp only [hnested] at hn
+    obtain ⟨f', l', o', e⟩ := prun_hnested r d pre v rest f l _ hd hn
+    exact ⟨f', l', o', by simpa [prun, pstep] using e⟩
+  | .ctxPanic p j :: r, d, pre, v, rest, f, l, o, hd, hn => by
+    simp only [hnested] at hn
+    obtain ⟨f', l', o', e⟩ := prun_hnested r d pre v rest f l o hd hn
+    exact ⟨f', l', o', by simpa [prun, pstep] using e⟩
+  | .gc g :: r, d, pre, v, rest, f, l, o, hd, hn => by
+    simp only [hnested] at hn
+    obtain ⟨f', l', o', e⟩ := prun_hnested r d pre v rest f l o hd hn
+    exact ⟨f', l', o', by simpa [prun, pstep] using e⟩
 
 theorem prun_append (s : PS) (a b : List Op) : prun s (a ++ b) = prun (prun s a) b := by
   simp [prun, List.foldl_append]
